@@ -159,7 +159,7 @@ PROPS = {
     "C13": dict(units=["fswatch", "cfgwatch"], level="proof",
                 assumptions=["the notify watcher is a map path -> recursion mode: watch() inserts/overwrites, unwatch() removes, either may fail arbitrarily leaving the map unchanged; Watcher::create yields an empty watcher of the requested kind (real notify back ends, recursive sub-watches, inotify auto-removal on delete: not decided; replayed on the real library by replay/lib scenarios)",
                              "a configured path set names each path once (distinct_paths): with the same path configured in both modes no registration can equal the configuration",
-                             "the configuration read by one iteration (pathset.get twice, file_watcher.get) does not change during it; a change made meanwhile is applied by the next iteration: ConfigWatched::next and Config::signal_change are under contract in unit cfgwatch (logical-clock model of tokio Notify + the change counter: the watcher sleeps only on a Notified enabled before it read the counter, and only if the counter equals what it already reported; signal_change counts before it wakes; each setter signals once (structural)). tokio Notify itself, Changeable's RwLock, reconfiguration from inside handlers and deadlock freedom are concurrency outside what contracts can express: NOT decided",
+                             "the configuration read by one iteration (pathset.get twice, file_watcher.get) does not change during it; a change made meanwhile is applied by the next iteration: ConfigWatched::next and Config::signal_change are under contract in unit cfgwatch (logical-clock model of tokio Notify + the change counter: the watcher sleeps only on a Notified enabled before it read the counter, and only if the counter equals what it already reported; signal_change counts before it wakes; each setter signals once (structural)). Changeable: that reads clone the value out of a temporary guard and that a handler is called on the clone with no lock held is decided on the token stream (structural obligations; Verus does not model Drop), which is what makes reconfiguration from inside a handler deadlock-free and leaves the invocation in progress on the old handler. tokio Notify itself and RwLock fairness are NOT decided",
                              "convergence is claimed per iteration in which no watch/unwatch call failed; with failures the record still mirrors the watcher, so a later fault-free iteration converges",
                              "notify_multi_path_errors (string/notify::Error code) is a stand-in: one runtime error per path the notify error names, at least one; errors.send is an abstract channel that counts accepted errors",
                              "`for` loops are desugared mechanically (R16) over a stand-in iterator yielding the Vec's elements in order; HashSet iteration order is arbitrary (vx_elems)"],
